@@ -18,8 +18,8 @@ def run(args):
         for pid in PIDS:
             keys, err = failing_keys(pid, d)
             new = sorted(k for k in keys if k not in baseline[pid])
-            if err: fired[pid] = [err[:80]]
-            elif new: fired[pid] = [f"{r}[{k}]" for r,k in new[:2]]
+            if new: fired[pid] = [f"{r}[{k}]" for r,k in new[:2]]
+            elif err: fired[pid] = ["ERR " + err[:80]]
         return name, fired
     finally:
         shutil.rmtree(d, ignore_errors=True)
@@ -30,10 +30,14 @@ if __name__ == "__main__":
     with ProcessPoolExecutor(16) as ex:
         res = list(ex.map(run, [(s, f"/verif/seeded/{s}/patch.diff", b) for s in seeds]))
     missed = []
+    own_err = []
     for name, fired in res:
         own = name.split("-")[0]
         if fired is None: print(name, "PATCH-DOES-NOT-APPLY"); continue
         if own not in fired: missed.append(name)
-        print(f"{name:10s} {'own' if own in fired else 'MISS'} {sorted(fired)}")
+        how = "MISS" if own not in fired else "own-err" if fired[own][0].startswith("ERR ") else "own"
+        if how == "own-err": own_err.append(name)
+        print(f"{name:10s} {how} {sorted(fired)}")
     print("MISSED:", missed)
+    print("OWN CHECK ANSWERS WITH AN ANALYSIS ERROR ONLY:", own_err)
     json.dump({n: {"caught_by": sorted(f)} for n, f in res if f is not None}, open("/verif/out/seed_checks.json","w"), indent=1)
